@@ -808,6 +808,49 @@ class Facts:
                             break
         return hits
 
+    # -- divergence ---------------------------------------------------------------------------
+    def dead_end_blocks(self, body: Body, depth=3, _stack=()):
+        """Blocks whose call terminator never returns: no target, a diverging same-crate callee, or
+        a diverging closure handed to a same-crate function that calls it on every path."""
+        key = ("dead", body.path)
+        cache = getattr(self, "_dead_cache", None)
+        if cache is None:
+            cache = self._dead_cache = {}
+        if key in cache:
+            return cache[key]
+        out = set()
+        for s in body.calls(None):
+            t = s.node()
+            if t.get("t") is None:
+                out.add(s.bb)
+                continue
+            if depth <= 0:
+                continue
+            f = t["fn"]
+            names = [n for n in (f.get("resolved"), f.get("def")) if n]
+            for n in names:
+                cb = self.body(n)
+                if cb is None or cb.path in _stack or cb is body:
+                    continue
+                if self.diverges(cb, depth - 1, _stack + (body.path,)):
+                    out.add(s.bb)
+                    break
+                # closure arguments
+                for a in t["args"]:
+                    o = body.origin_op(a, 0, None, s)
+                    m = re.match(r"^closure:([^\[\]]+)\[", o)
+                    if m:
+                        kb = self.body(m.group(1))
+                        if kb is not None and self.diverges(kb, depth - 1, _stack + (body.path,)) and self.must_call(cb, r"^std::ops::(FnOnce::call_once|FnMut::call_mut|Fn::call)$", 2):
+                            out.add(s.bb)
+        cache[key] = out
+        return out
+
+    def diverges(self, body: Body, depth=3, _stack=()):
+        dead = self.dead_end_blocks(body, depth, _stack)
+        reach = body.reachable(0, "normal", cut_blocks=dead)
+        return not any(r in reach and r not in dead for r in body.return_blocks())
+
     def path_avoiding(self, body: Body, avoid_blocks, targets, view="normal", start=0):
         """A witness path (list of bb) from start to any block in targets that never *leaves* an
         avoided block; None if none exists."""
@@ -1108,7 +1151,11 @@ class OnlyIf:
         p = rv["p"]
         adt = rv.get("adt")
         o = b.origin_place(p, 0, self.subst, site)
-        names = self._variant_names(adt)
+        names = None
+        if rv.get("variants"):
+            names = {int(v): n for v, n in rv["variants"]}
+        if names is None:
+            names = self._variant_names(adt)
         if names is None:
             return False
         allowed = self._allowed_variants(names, pred)
